@@ -160,7 +160,9 @@ HeadTree(hd) ==
 LRSTree(ls) ==
     IF ls[1] = "default" THEN [add |-> Sub["lr_scheduler"], gone |-> {LRSPath}]
     ELSE LET n == ls[2]
-             ov == IF ls[1] = "dict" THEN Over(LRSPath \o "." \o n, ls[3]) ELSE EmptyFn
+             \* "dict2": the same scheduler given in the documented two-key form {step_lr: ..., reduce_lr_on_plateau: ...}
+             \* with the other key None, in either key order (ls[4]) - the meaning is that of the one-key dict
+             ov == IF ls[1] \in {"dict", "dict2"} THEN Over(LRSPath \o "." \o n, ls[3]) ELSE EmptyFn
          IN [add |-> ov @@ Sub[n] @@ Restrict2(Sub["lr_scheduler"], DOMAIN Sub["lr_scheduler"] \ {LRSPath \o "." \o n}),
              gone |-> {LRSPath}]
 \* early stopping: always created; its three fields are plain arguments (ArgTable)
@@ -339,7 +341,7 @@ RejectReason(c) ==
         THEN "argument/" \o (CHOOSE a \in DOMAIN c.args : a \in DOMAIN ArgField /\ FieldVerdict(ArgField[a][1], ArgField[a][2], c.args[a]) = "reject")
     ELSE IF c.bb[1] = "preset" /\ c.bb[2] \notin Presets THEN "unknown_backbone_size/" \o c.bb[2]
     ELSE IF c.bb[1] = "dict" /\ DictRejects(FamilyClass[c.bb[2]], c.bb[3]) THEN "backbone_field"
-    ELSE IF c.lrs[1] = "dict" /\ DictRejects(LRSClass[c.lrs[2]], c.lrs[3]) THEN "lr_scheduler_field"
+    ELSE IF c.lrs[1] \in {"dict", "dict2"} /\ DictRejects(LRSClass[c.lrs[2]], c.lrs[3]) THEN "lr_scheduler_field"
     ELSE IF c.aug[1] = "on" /\ c.aug[2][1] = "dict" /\ DictRejects("IntensityConfig", c.aug[2][2]) THEN "intensity_field"
     ELSE IF c.aug[1] = "on" /\ c.aug[3][1] = "dict" /\ DictRejects("GeometricConfig", c.aug[3][2]) THEN "geometric_field"
     ELSE IF WeightsVerdict(BBFamily(c.bb), c.pw) = "reject" THEN "pre_trained_weights_family"
